@@ -92,6 +92,12 @@ CHECKS = {
         note="Snapshots cover public state only (stored points, kinds, transform entries, apply flag, paint values, stroke width, id, values dict, shape attributes, children recursively).",
         ref="5/C18",
     ),
+    "C06": dict(
+        technique="property-based testing: generated shape parameters x construction routes x matrix classes against the SVG 2 chapter 10 decompositions written out by the harness",
+        text="Rect (all 24 combinations of rx/ry omitted/zero/normal/over-large/percent), circle, ellipse, line, polyline and polygon (0..8 points, repeats) built from keywords, positional arguments or attribute dictionaries of strings, under the 10 matrix classes: the untransformed decomposition must equal the chapter 10 path (kinds, start point, direction, order; straight edges at 1e-12, arcs on the F.6 reference at 1e-9), the resolved rect radii must follow the auto/clamp table, abs(Path(shape)), lazily transformed segments, the shape's own transformed segments and Path(shape.d()) must equal the matrix image of that decomposition, shape == Path(shape) == reified path (and != the untransformed path), bounding boxes of all forms agree with the sampled extent, straight-shape lengths agree, degenerate shapes produce nothing. Exploration.",
+        note="Arcs through d() are compared at six significant digits x eccentricity (KF-ARC-D-6DIGITS, C07); round shapes' own transformed decomposition under non-conformal matrices is KF-ROUNDSHAPE-TRANSFORMED; lengths of curved shapes are left to C15.",
+        ref="5/C06",
+    ),
 }
 
 REASON_PENDING = "no check registered yet in this build; the design (DESIGN.md section 5) covers it with property-based testing"
